@@ -92,3 +92,9 @@ func AddDx14(a int) int {
 	// the sum
 	return a + 14
 }
+
+// PlainD carries a directive that matches nothing: it is reported, on every run.
+func PlainD(a int) int {
+	//lint:ignore SA4006 nothing is wrong on the next line
+	return a
+}
